@@ -12,6 +12,7 @@ NOTE_SESS = ("Exhaustive only within the stated constants of the .cfg files; bey
 CHECKS = {
  "C01": ("model_checking", SESS, "DESIGN.md 5 C01", "TLA+ spec + TLC bounded program space, spec-to-impl sessions validated by TLC trace validation"),
  "C04": ("model_checking", SESS, "DESIGN.md 5 C04", "TLA+ spec + TLC state graph of edit histories, TLC trace validation"),
+ "C05": ("model_checking", "Explicit TLA+ model of the scanner and lister (BasicLex: Lex, ShowL, Meaning). TLC enumerates every string up to the bound over the lexically significant alphabet, checks ModelRoundTrip on the model, and prints each string with the model's tokens and listed text; the harness feeds each to the real lexer / lister / parser and checks the property's own relations (same number, same parse or rejected in both, fixed point for lines that parse, literals preserved) and counts model/implementation divergence separately.", "DESIGN.md 5 C05", "TLA+ model scanner + TLC exhaustive enumeration of short strings, spec-to-implementation replay with relational oracle"),
  "C06": ("model_checking", SESS, "DESIGN.md 5 C06", "TLA+ spec + TLC state graph of the variable store, TLC trace validation with full store probe"),
  "C08": ("model_checking", "TLC enumerates the whole bounded operand grid on the TLA+ value specification (BasicValues), checks the arithmetic laws on the specification itself, and every enumerated case is replayed against the real VM and compared with the specified value or error code.", "DESIGN.md 5 C08", "TLA+ spec + TLC enumeration, spec-to-implementation replay"),
  "C09": ("model_checking", SESS, "DESIGN.md 5 C09", "TLA+ spec + TLC bounded program space (DATA placements), TLC trace validation"),
